@@ -341,6 +341,10 @@ def nested_grids(rng, thorough):
     out.append(dict(name="screen4", V=meshgen.perturb(V, 0.05, rng), E=E))
     V, E = meshgen.octahedron()
     out.append(dict(name="octahedron8", V=meshgen.perturb(V, 0.12, rng), E=E))
+    # non-zero domain indices (used by the check that the children of grid.refine() inherit the index of their parent)
+    for o in out:
+        ne = o["E"].shape[1]
+        o["D"] = np.array([1 + (j * 3) // ne for j in range(ne)], dtype=np.uint32)
     return out
 
 
